@@ -290,6 +290,28 @@ fn remark_spellings_as_files() -> (u64, Vec<Violation>) {
             }
         }
     }
+    // lines without a blank (or with several, or a tab) behind the line number: loaded and typed
+    for line in ["10PRINT123", "20X=4", "30GOTO10", "40?X;Y$", "50  PRINT 1", "60\tPRINT 1", "70REM x", "80DATA 1,a", "90:PRINT 2", "100\"s\"", "7 7 PRINT 7"] {
+        n += 1;
+        let text = line.to_string();
+        let loaded = match guarded(move || abasic_core::SourceFileAnalyzer::analyze(text).into_interpreter()) {
+            Ok(it) => Sess::from_interpreter(it).it.verif_snapshot().lines,
+            Err(p) => {
+                out.push(Violation { signature: format!("panic {}", short_panic(&p)), detail: p, case: json!({"kind":"file","text":line}) });
+                continue;
+            }
+        };
+        let mut s = Sess::new();
+        let _ = s.apply(&Ev::Line(line.to_string()));
+        let typed = s.it.verif_snapshot().lines;
+        if typed != loaded {
+            out.push(Violation {
+                signature: "a line loaded as a file is stored differently from the same line typed".into(),
+                detail: format!("{:?}: loaded {:?}, typed {:?}", line, loaded, typed),
+                case: json!({"kind":"file","text":line}),
+            });
+        }
+    }
     (n, out)
 }
 
